@@ -78,7 +78,9 @@ def build_sandbox(root, rng, placement, opts_on):
     if opts_on.get("page_dir"):
         pd = os.path.join(proj, "pages")
         os.makedirs(os.path.join(pd, "sub", "assets"))
-        open(os.path.join(pd, "index.md"), "w").write("title: Top\ncopy_subdir: shared\n\ntext [sub](sub/index.html)\n")
+        # (an entry that climbs out of the page directory has no place inside the output: it must not be mirrored outside it)
+        esc = "\n    ../../bystander\n    ../other_dir" if opts_on.get("escaping_copy_subdir") else ""
+        open(os.path.join(pd, "index.md"), "w").write(f"title: Top\ncopy_subdir: shared{esc}\n\ntext [sub](sub/index.html)\n")
         os.makedirs(os.path.join(pd, "shared"))
         open(os.path.join(pd, "shared", "s.css"), "w").write("body{}\n")
         open(os.path.join(pd, "notes.txt"), "w").write("notes\n")
@@ -283,6 +285,7 @@ def case(arg):
         opts_on["linked_page_subdir"] = rng.random() < 0.4
         opts_on["force"] = rng.random() < 0.5
         opts_on["deep_media"] = rng.random() < 0.5
+        opts_on["escaping_copy_subdir"] = rng.random() < 0.4
         opts_on["bad_preprocessor"] = mode == "plain" and rng.random() < 0.3
         opts_on["graph_dir"] = [None, "sibling", "in_output", "absolute", "contains_sources"][seed % 5]
         if opts_on["graph_dir"] and rng.random() < 0.8:
